@@ -1,6 +1,705 @@
-//! `sampler` engine (under construction)
+//! `sampler` engine infrastructure: cases (configuration + kinematics + built sampler), the deviation-bounded
+//! explorer of answer sequences, and per-point exact data. Property clauses live in sprops.rs.
 use crate::common::*;
+use crate::obs::*;
+use crate::scope::*;
+use num_traits::{One, Signed, Zero};
+use oracle::graph::OGraph;
+use oracle::kin::*;
+use oracle::linalg::QMat;
+use oracle::num::*;
+use oracle::refsampler::{self, RefRun, RefTable};
+use oracle::symanzik::*;
+use serde_json::{json, Value};
 
-pub fn c16b_pass(_ctx: &Ctx) -> Acc {
-    Acc::new()
+// ---------------------------------------------------------------------------------------------------
+// cases
+// ---------------------------------------------------------------------------------------------------
+
+#[derive(Clone, Debug)]
+pub struct CaseSpec {
+    pub g: OGraph,
+    /// variant of the external momentum set (0/1)
+    pub mom_variant: usize,
+    /// variant of the mass values
+    pub mass_variant: usize,
+    pub label: String,
+}
+
+pub struct Case {
+    pub spec: CaseSpec,
+    pub g: OGraph,
+    pub rt: RefTable,
+    pub comb: Comb,
+    pub fpoly: FPoly,
+    pub ext: Vec<(u8, Vec<Q>)>,
+    pub masses: Vec<Option<Q>>,
+    /// generic kinematics (G3): |externals| != 1, partial sums non-zero, F not identically zero
+    pub generic: bool,
+    pub nl: usize,
+    pub dod: f64,
+    pub cached_ref: f64,
+}
+
+pub fn mass_values(g: &OGraph, variant: usize) -> Vec<Option<Q>> {
+    (0..g.ne())
+        .map(|e| {
+            if g.massive[e] {
+                Some(if (e + variant) % 2 == 0 { qr(1, 2) } else { qi(2) })
+            } else {
+                None
+            }
+        })
+        .collect()
+}
+
+fn distinct(v: &[u8]) -> Vec<u8> {
+    let mut r: Vec<u8> = vec![];
+    for &x in v {
+        if !r.contains(&x) {
+            r.push(x);
+        }
+    }
+    r
+}
+
+/// G1 (accepted with margin) + G2 (connected, externals touched) + at least one loop
+pub fn admissible(g: &OGraph) -> bool {
+    if g.ne() == 0 || !g.is_connected() {
+        return false;
+    }
+    if g.loop_number(g.full()) == 0 {
+        return false;
+    }
+    let vs = g.vertices(g.full());
+    if !g.externals.iter().all(|x| vs.contains(x)) {
+        return false;
+    }
+    let eps = qf(1e-9);
+    if g.dod() < eps {
+        return false;
+    }
+    for m in 1..g.full() {
+        if g.omega(m) < eps {
+            return false;
+        }
+    }
+    true
+}
+
+impl Case {
+    pub fn new(spec: &CaseSpec) -> Option<Case> {
+        let g = spec.g.clone();
+        if !admissible(&g) {
+            return None;
+        }
+        let rt = RefTable::new(&g)?;
+        let comb = Comb::new(&g);
+        let ext_v = distinct(&g.externals);
+        let ext = external_momenta(&ext_v, g.dim, spec.mom_variant);
+        let masses = mass_values(&g, spec.mass_variant);
+        let fpoly = f_poly(&comb, &ext, &masses);
+        let generic = ext_v.len() != 1 && partial_sums_nonzero(&ext) && !fpoly.is_zero();
+        let nl = g.loop_number(g.full());
+        let dod = q_to_f64(&rt.dod);
+        let cached_ref = rt.normalisation();
+        Some(Case {
+            spec: spec.clone(),
+            g,
+            rt,
+            comb,
+            fpoly,
+            ext,
+            masses,
+            generic,
+            nl,
+            dod,
+            cached_ref,
+        })
+    }
+
+    /// base routing: fundamental cycles of the Kruskal tree for the given edge priority
+    pub fn kin_for_order(&self, order: &[usize]) -> Kin {
+        let t = kruskal_tree(&self.g, order);
+        build_kin(&self.g, t, &self.ext, &self.masses)
+    }
+    pub fn base_kin(&self) -> Kin {
+        let order: Vec<usize> = (0..self.g.ne()).collect();
+        self.kin_for_order(&order)
+    }
+    /// routing whose tree prefers the edges removed LAST in the sector (smallest parameters carry the externals)
+    pub fn tropical_kin(&self, removal_order: &[usize]) -> Kin {
+        let order: Vec<usize> = removal_order.iter().rev().cloned().collect();
+        self.kin_for_order(&order)
+    }
+}
+
+/// a routing of a case bound to a built sampler
+pub struct Routed {
+    pub kin: Kin,
+    pub sampler: Sampler,
+    pub ed: EdgeData<f64>,
+    pub graph: OGraph,
+    pub mgen: Option<MGen>,
+}
+
+pub fn q_exact_f64(q: &Q) -> f64 {
+    let f = q_to_f64(q);
+    assert!(qf(f) == *q, "harness: kinematic value {q} is not exactly representable");
+    f
+}
+
+pub fn route(case: &Case, kin: &Kin) -> Result<Routed, String> {
+    // the graph handed to the implementation carries the orientation of the routing
+    let mut g = case.g.clone();
+    g.edges = kin.orient.clone();
+    let sig: Vec<Vec<isize>> = kin.sig.iter().map(|r| r.iter().map(|&x| x as isize).collect()).collect();
+    let sampler = match build(&g, &sig) {
+        BuildOutcome::Ok(s) => s,
+        BuildOutcome::Rejected(e) => return Err(format!("rejected: {e}")),
+        BuildOutcome::Panicked(p) => return Err(format!("panicked: {p}")),
+    };
+    let ed: EdgeData<f64> = (0..g.ne())
+        .map(|e| {
+            (
+                kin.masses[e].as_ref().map(q_exact_f64),
+                kin.shifts[e].iter().map(q_exact_f64).collect(),
+            )
+        })
+        .collect();
+    let mgen = sampler.observe().ok();
+    Ok(Routed {
+        mgen,
+        kin: kin.clone(),
+        sampler,
+        ed,
+        graph: g,
+    })
+}
+
+pub fn kin_json(k: &Kin) -> Value {
+    json!({
+        "sig": k.sig,
+        "shifts": k.shifts.iter().map(|s| s.iter().map(|x| jf(q_to_f64(x))).collect::<Vec<_>>()).collect::<Vec<_>>(),
+        "masses": k.masses.iter().map(|m| m.as_ref().map(|x| jf(q_to_f64(x)))).collect::<Vec<_>>(),
+        "orient": k.orient.iter().map(|&(a,b)| json!([a,b])).collect::<Vec<_>>(),
+        "ext": k.ext.iter().map(|(v,p)| json!([v, p.iter().map(|x| jf(q_to_f64(x))).collect::<Vec<_>>()])).collect::<Vec<_>>(),
+    })
+}
+
+pub fn kin_from_json(v: &Value) -> Kin {
+    let fq = |x: &Value| qf(unjf(x));
+    Kin {
+        sig: v["sig"].as_array().unwrap().iter().map(|r| r.as_array().unwrap().iter().map(|x| x.as_i64().unwrap()).collect()).collect(),
+        shifts: v["shifts"].as_array().unwrap().iter().map(|r| r.as_array().unwrap().iter().map(fq).collect()).collect(),
+        masses: v["masses"].as_array().unwrap().iter().map(|m| if m.is_null() { None } else { Some(fq(m)) }).collect(),
+        orient: v["orient"].as_array().unwrap().iter().map(|p| (p[0].as_u64().unwrap() as u8, p[1].as_u64().unwrap() as u8)).collect(),
+        ext: v["ext"].as_array().unwrap().iter().map(|p| (p[0].as_u64().unwrap() as u8, p[1].as_array().unwrap().iter().map(fq).collect())).collect(),
+    }
+}
+
+pub fn point_case(case: &Case, kin: &Kin, x: &[f64], st: &Settings, extra: Value) -> Value {
+    json!({
+        "engine": "sampler",
+        "graph": graph_json(&case.g),
+        "mom_variant": case.spec.mom_variant,
+        "mass_variant": case.spec.mass_variant,
+        "kin": kin_json(kin),
+        "x": jf_vec(x),
+        "settings": {"stability": st.stability.map(jf), "debug": st.debug, "metadata": st.metadata},
+        "extra": extra,
+    })
+}
+
+pub fn settings_from_json(v: &Value) -> Settings {
+    Settings {
+        stability: if v["stability"].is_null() { None } else { Some(unjf(&v["stability"])) },
+        debug: v["debug"].as_bool().unwrap_or(false),
+        metadata: v["metadata"].as_bool().unwrap_or(false),
+    }
+}
+
+// ---------------------------------------------------------------------------------------------------
+// configuration families (G-fam)
+// ---------------------------------------------------------------------------------------------------
+
+pub struct FamOpts {
+    pub max_e: usize,
+    pub max_l: usize,
+    pub named: bool,
+    pub dims: Vec<usize>,
+    /// how many accepted weight assignments to keep per (topology, masses, externals, D)
+    pub weights_per: usize,
+    pub all_masses_up_to_e: usize,
+}
+
+fn external_choices(edges: &[(u8, u8)], any_massive: bool) -> Vec<Vec<u8>> {
+    let g = mk(edges, &vec![false; edges.len()], &vec![1.0; edges.len()], &[], 4);
+    let vs = g.vertices(g.full());
+    let mut res: Vec<Vec<u8>> = vec![];
+    if any_massive {
+        res.push(vec![]);
+    }
+    let n = vs.len();
+    if n >= 2 {
+        if n <= 3 {
+            for i in 0..n {
+                for j in i + 1..n {
+                    res.push(vec![vs[i], vs[j]]);
+                }
+            }
+        } else {
+            res.push(vec![vs[0], vs[n - 1]]);
+            res.push(vec![vs[1], vs[2]]);
+        }
+    }
+    if n >= 3 {
+        res.push(vec![vs[0], vs[1], vs[n - 1]]);
+    }
+    if n >= 4 {
+        res.push(vec![vs[0], vs[1], vs[2], vs[3]]);
+    }
+    res
+}
+
+fn mass_choices(ne: usize, all_up_to: usize) -> Vec<Vec<bool>> {
+    if ne <= all_up_to {
+        mass_patterns(ne)
+    } else {
+        vec![
+            vec![false; ne],
+            vec![true; ne],
+            (0..ne).map(|e| e % 2 == 0).collect(),
+            (0..ne).map(|e| e == 0).collect(),
+            (0..ne).map(|e| e + 1 != ne).collect(),
+        ]
+    }
+}
+
+/// candidate uniform weights in preference order, then a non-uniform perturbation of the first accepted one
+fn weight_candidates(ne: usize, d: usize) -> Vec<Vec<f64>> {
+    let mut res = vec![];
+    for w in [1.0, 2.0 / 3.0, 0.5, 0.75, 1.5, 2.0, d as f64 / 2.0 + 0.25, d as f64] {
+        res.push(vec![w; ne]);
+        res.push((0..ne).map(|e| w + 0.125 * (e as f64)).collect());
+        res.push((0..ne).map(|e| if e % 2 == 0 { w } else { 0.66 }).collect());
+    }
+    res
+}
+
+pub fn family(opts: &FamOpts) -> Vec<CaseSpec> {
+    let mut topos = g_fam_topologies(opts.max_e, opts.max_l);
+    if opts.named {
+        topos.push(mercedes());
+        topos.push(ladder2());
+        topos.push(banana(4));
+        topos.push(banana(5));
+        topos.push(flower(4));
+        topos.push(flower(5));
+    }
+    let mut res = vec![];
+    for topo in &topos {
+        let ne = topo.len();
+        let g0 = mk(topo, &vec![false; ne], &vec![1.0; ne], &[], 4);
+        if g0.loop_number(g0.full()) == 0 {
+            continue;
+        }
+        for massive in mass_choices(ne, opts.all_masses_up_to_e) {
+            let any_m = massive.iter().any(|&m| m);
+            for ext in external_choices(topo, any_m) {
+                for &d in &opts.dims {
+                    let mut kept = 0;
+                    for w in weight_candidates(ne, d) {
+                        if kept >= opts.weights_per {
+                            break;
+                        }
+                        let g = mk(topo, &massive, &w, &ext, d);
+                        if !admissible(&g) {
+                            continue;
+                        }
+                        kept += 1;
+                        let mv = (res.len()) % 2;
+                        res.push(CaseSpec {
+                            label: format!("E{}L{}", ne, g.loop_number(g.full())),
+                            g,
+                            mom_variant: mv,
+                            mass_variant: (res.len() / 2) % 2,
+                        });
+                    }
+                }
+            }
+        }
+    }
+    res
+}
+
+/// always-accepted all-massive graphs covering every (D, L) cell: L-fold bananas and flowers with weight D
+pub fn dl_grid_cases() -> Vec<CaseSpec> {
+    let mut res = vec![];
+    for d in 1..=6usize {
+        for l in 1..=5usize {
+            for (name, topo) in [("banana", banana(l)), ("flower", flower(l))] {
+                let ne = topo.len();
+                let ext: Vec<u8> = if name == "banana" { vec![0, 1] } else { vec![] };
+                let g = mk(&topo, &vec![true; ne], &vec![d as f64; ne], &ext, d);
+                if admissible(&g) {
+                    res.push(CaseSpec {
+                        g,
+                        mom_variant: (d + l) % 2,
+                        mass_variant: l % 2,
+                        label: format!("{name}-D{d}L{l}"),
+                    });
+                }
+            }
+        }
+    }
+    res
+}
+
+// ---------------------------------------------------------------------------------------------------
+// answer alphabets and the deviation-bounded explorer
+// ---------------------------------------------------------------------------------------------------
+
+pub const XI_ALPHA: [f64; 8] = [5e-324, 1e-300, 1e-100, 1e-12, 1e-3, 0.25, 0.9, 1.0 - 1.1102230246251565e-16];
+pub const XI_MODERATE: [f64; 5] = [1e-12, 1e-3, 0.25, 0.9, 1.0 - 1.1102230246251565e-16];
+pub const P_ALPHA: [f64; 10] = [
+    0.0,
+    5e-324,
+    1e-300,
+    1e-17,
+    1e-9,
+    1e-3,
+    0.25,
+    0.75,
+    1.0 - 1e-9,
+    1.0 - 1.1102230246251565e-16,
+];
+pub const A_ALPHA: [f64; 6] = [5e-324, 1e-300, 1e-6, 0.1, 0.9, 1.0 - 1.1102230246251565e-16];
+pub const B_ALPHA: [f64; 7] = [0.0, 1e-300, 0.125, 0.25, 0.5, 0.75, 1.0 - 1.1102230246251565e-16];
+
+#[derive(Clone, Copy, PartialEq, Debug)]
+pub enum Role {
+    U,
+    Xi,
+    P,
+    A,
+    B,
+}
+
+#[derive(Clone, Debug)]
+pub struct Roles {
+    pub u: bool,
+    pub xi: bool,
+    pub p: bool,
+    pub ab: bool,
+    /// use only the moderate ξ values (no underflow-scale answers)
+    pub xi_moderate: bool,
+}
+
+/// positions of a point for a case: role per coordinate
+pub fn roles_of(case: &Case) -> Vec<Role> {
+    let ne = case.g.ne();
+    let mut r = vec![];
+    for _ in 0..ne.saturating_sub(1) {
+        r.push(Role::U);
+        r.push(Role::Xi);
+    }
+    r.push(Role::P);
+    let dl = case.g.dim * case.nl;
+    for _ in 0..(dl + dl % 2) / 2 {
+        r.push(Role::A);
+        r.push(Role::B);
+    }
+    r
+}
+
+/// the removal order determines the u defaults: midpoints of the sector's intervals
+pub fn sector_defaults(case: &Case, order: &[usize]) -> Vec<f64> {
+    let roles = roles_of(case);
+    let mut x = vec![0.0; roles.len()];
+    let mut g = case.g.full();
+    let mut step = 0;
+    for (i, r) in roles.iter().enumerate() {
+        match r {
+            Role::U => {
+                x[i] = refsampler::midpoint_u(&case.rt, g, order[step]);
+                g ^= 1 << order[step];
+                step += 1;
+            }
+            Role::Xi => x[i] = 0.5,
+            Role::P => x[i] = 0.5,
+            Role::A => x[i] = 0.5,
+            Role::B => x[i] = 0.3,
+        }
+    }
+    x
+}
+
+/// interior alternatives for the u answer of step `step` in the sector (same edge, close to the interval ends)
+fn u_interior_alts(case: &Case, order: &[usize], step: usize) -> Vec<f64> {
+    let mut g = case.g.full();
+    for s in 0..step {
+        g ^= 1 << order[s];
+    }
+    let (lo, hi) = refsampler::interval(&case.rt, g, order[step]);
+    let w = &hi - &lo;
+    let delta = q_min(&qf(2f64.powi(-20)), &(&w / qi(4)));
+    let a = q_to_f64(&(&lo + &delta));
+    let b = q_to_f64(&(&hi - &delta));
+    let mut v = vec![];
+    for c in [a, b] {
+        if (0.0..1.0).contains(&c) {
+            v.push(c);
+        }
+    }
+    v
+}
+
+/// All points of a sector with at most `k` deviations from the sector defaults, over the enabled roles.
+/// Returns (points, number_of_deviations per point).
+pub fn sector_points(case: &Case, order: &[usize], k: usize, roles_on: &Roles) -> Vec<(Vec<f64>, usize)> {
+    let roles = roles_of(case);
+    let base = sector_defaults(case, order);
+    let mut alts: Vec<Vec<f64>> = vec![];
+    let mut ustep = 0;
+    for r in &roles {
+        alts.push(match r {
+            Role::U => {
+                let a = if roles_on.u { u_interior_alts(case, order, ustep) } else { vec![] };
+                ustep += 1;
+                a
+            }
+            Role::Xi => {
+                if roles_on.xi {
+                    if roles_on.xi_moderate {
+                        XI_MODERATE.to_vec()
+                    } else {
+                        XI_ALPHA.to_vec()
+                    }
+                } else {
+                    vec![]
+                }
+            }
+            Role::P => {
+                if roles_on.p {
+                    P_ALPHA.to_vec()
+                } else {
+                    vec![]
+                }
+            }
+            Role::A => {
+                if roles_on.ab {
+                    A_ALPHA.to_vec()
+                } else {
+                    vec![]
+                }
+            }
+            Role::B => {
+                if roles_on.ab {
+                    B_ALPHA.to_vec()
+                } else {
+                    vec![]
+                }
+            }
+        });
+    }
+    let mut res = vec![(base.clone(), 0usize)];
+    fn rec(
+        start: usize,
+        left: usize,
+        used: usize,
+        cur: &mut Vec<f64>,
+        alts: &[Vec<f64>],
+        res: &mut Vec<(Vec<f64>, usize)>,
+    ) {
+        if left == 0 {
+            return;
+        }
+        for pos in start..alts.len() {
+            let keep = cur[pos];
+            for &a in &alts[pos] {
+                cur[pos] = a;
+                res.push((cur.clone(), used + 1));
+                rec(pos + 1, left - 1, used + 1, cur, alts, res);
+            }
+            cur[pos] = keep;
+        }
+    }
+    let mut cur = base;
+    rec(0, k, 0, &mut cur, &alts, &mut res);
+    res
+}
+
+/// full product of the alternatives (incl. default) over the enabled roles – for tiny graphs
+pub fn sector_full_product(case: &Case, order: &[usize], roles_on: &Roles, cap: usize) -> Option<Vec<Vec<f64>>> {
+    let roles = roles_of(case);
+    let base = sector_defaults(case, order);
+    let mut alts: Vec<Vec<f64>> = vec![];
+    let mut ustep = 0;
+    for (i, r) in roles.iter().enumerate() {
+        let mut a = vec![base[i]];
+        match r {
+            Role::U => {
+                if roles_on.u {
+                    a.extend(u_interior_alts(case, order, ustep));
+                }
+                ustep += 1;
+            }
+            Role::Xi => {
+                if roles_on.xi {
+                    a.extend(if roles_on.xi_moderate { XI_MODERATE.to_vec() } else { XI_ALPHA.to_vec() });
+                }
+            }
+            Role::P => {
+                if roles_on.p {
+                    a.extend(P_ALPHA);
+                }
+            }
+            Role::A => {
+                if roles_on.ab {
+                    a.extend(A_ALPHA);
+                }
+            }
+            Role::B => {
+                if roles_on.ab {
+                    a.extend(B_ALPHA);
+                }
+            }
+        }
+        alts.push(a);
+    }
+    let total: usize = alts.iter().map(|a| a.len()).try_fold(1usize, |p, n| p.checked_mul(n))?;
+    if total > cap {
+        return None;
+    }
+    let mut res = Vec::with_capacity(total);
+    let mut idx = vec![0usize; alts.len()];
+    loop {
+        res.push(idx.iter().enumerate().map(|(i, &j)| alts[i][j]).collect());
+        let mut p = 0;
+        while p < alts.len() {
+            idx[p] += 1;
+            if idx[p] < alts[p].len() {
+                break;
+            }
+            idx[p] = 0;
+            p += 1;
+        }
+        if p == alts.len() {
+            break;
+        }
+    }
+    Some(res)
+}
+
+pub fn all_sectors(ne: usize) -> Vec<Vec<usize>> {
+    all_permutations(ne)
+}
+
+// ---------------------------------------------------------------------------------------------------
+// exact data at a point
+// ---------------------------------------------------------------------------------------------------
+
+pub struct ExactAt {
+    pub xq: Vec<Q>,
+    pub l: QMat,
+    pub linv: QMat,
+    pub u: Q,
+    pub f: Q,
+    pub v: Q,
+    /// plain cond_1(L)
+    pub cond1: f64,
+    /// scaled condition number κ_s
+    pub kappa_s: f64,
+    /// cancellation ratio of V: Σ x_e(m²+p²)/V
+    pub r_cancel: f64,
+}
+
+/// exact Symanzik data at the given (rescaled) Feynman parameters; None if not evaluable (zero / non-finite x, singular L)
+pub fn exact_at(case: &Case, kin: &Kin, x: &[f64]) -> Option<ExactAt> {
+    if !x.iter().all(|v| v.is_finite() && *v > 0.0) {
+        return None;
+    }
+    let xq: Vec<Q> = x.iter().map(|&v| qf(v)).collect();
+    let l = l_matrix(&kin.sig, &xq);
+    let linv = l.inverse()?;
+    let u = u_poly(&case.comb, &xq);
+    let f = case.fpoly.eval(&xq);
+    if u.is_zero() {
+        return None;
+    }
+    let v = &f / &u;
+    let cond1 = q_to_f64(&(l.norm1() * linv.norm1()));
+    let kappa_s = l.scaled_cond1().map(|c| q_to_f64(&c)).unwrap_or(f64::INFINITY);
+    let first = v_first_term(kin, &xq);
+    let r_cancel = if v.is_zero() { f64::INFINITY } else { q_to_f64(&(first / &v)).abs() };
+    Some(ExactAt {
+        xq,
+        l,
+        linv,
+        u,
+        f,
+        v,
+        cond1,
+        kappa_s,
+        r_cancel,
+    })
+}
+
+pub const TAU0: f64 = 3.637978807091713e-12; // 2^-52 * 2^14
+
+/// G4: every listed quantity within [1e-280, 1e280]
+pub fn in_range(vals: &[f64]) -> bool {
+    vals.iter().all(|v| v.is_finite() && v.abs() >= 1e-280 && v.abs() <= 1e280)
+}
+
+pub fn q_in_range(q: &Q) -> bool {
+    if q.is_zero() {
+        return false;
+    }
+    let l = q_log2(q);
+    l.abs() < 930.0
+}
+
+/// relative error |f - r|/|r| of an f64 against an exact rational
+pub fn rel_err_f(f: f64, r: &Q) -> f64 {
+    if !f.is_finite() {
+        return f64::INFINITY;
+    }
+    rel_err(&qf(f), r)
+}
+
+// ---------------------------------------------------------------------------------------------------
+// driver used by every sampler property
+// ---------------------------------------------------------------------------------------------------
+
+pub struct PointObs {
+    pub x: Vec<f64>,
+    pub out: Outcome<f64>,
+    pub log: LogRec,
+    pub rr: Option<RefRun>,
+}
+
+pub fn observe_point(case: &Case, routed: &Routed, x: &[f64], st: &Settings) -> PointObs {
+    let (out, log) = if st.debug {
+        routed.sampler.sample_logged(x, &routed.ed, st)
+    } else {
+        (routed.sampler.sample(x, &routed.ed, st), LogRec::default())
+    };
+    let rr = refsampler::run(&case.rt, x);
+    PointObs {
+        x: x.to_vec(),
+        out,
+        log,
+        rr,
+    }
+}
+
+pub fn c16b_pass(ctx: &Ctx) -> Acc {
+    crate::sprops::c16b(ctx)
+}
+
+#[allow(dead_code)]
+fn _keep(_: Q) -> bool {
+    Q::one().is_positive()
 }
